@@ -13,7 +13,9 @@ EXTENDS Integers, Sequences, FiniteSets, TLC, Json, IOUtils
 
 A == ndJsonDeserialize(IOEnv.TRACE_A)
 B == ndJsonDeserialize(IOEnv.TRACE_B)
-N == Len(A)
+\* (once the builds disagree the two recordings part ways - different transitions get logged: the lines are compared as
+\*  far as both exist and a difference in length is itself reported)
+N == IF Len(A) <= Len(B) THEN Len(A) ELSE Len(B)
 
 Drop(r, fields) == [f \in DOMAIN r \ fields |-> r[f]]
 EraseMsg(m) == Drop(m, {"url"})
@@ -39,6 +41,8 @@ TNext == /\ l <= N
                  ELSE PrintT("FINDING " \o ToJson([i |-> l, fs |-> {[l |-> l, kind |-> "dual", m |-> A[l].call.m, atom |-> d, props |-> {"C19"}] : d \in D}]))
          /\ l' = l + 1
 TSpec == TInit /\ [][TNext]_<<l, nfind>>
-Accepted == IF Len(A) = Len(B) /\ TLCGet("stats").diameter - 1 = N THEN PrintT("TRACE-CONSUMED " \o ToString(N))
-            ELSE PrintT("TRACE-STUCK or length mismatch " \o ToString(Len(A)) \o " vs " \o ToString(Len(B))) /\ FALSE
+Accepted == IF TLCGet("stats").diameter - 1 = N
+            THEN /\ (Len(A) = Len(B) \/ PrintT("FINDING " \o ToJson([i |-> N, fs |-> {[l |-> N, kind |-> "dual", m |-> "length", atom |-> "the two builds' recordings have different lengths", props |-> {"C19"}]}])))
+                 /\ PrintT("TRACE-CONSUMED " \o ToString(N))
+            ELSE PrintT("TRACE-STUCK " \o ToString(Len(A)) \o " vs " \o ToString(Len(B))) /\ FALSE
 =============================================================================
